@@ -6,6 +6,7 @@ package harness
 
 import (
 	"fmt"
+	"sync"
 	"testing"
 
 	"github.com/trustbloc/sidetree-go/pkg/api/protocol"
@@ -197,3 +198,58 @@ func TestC03_SelfCertifying(t *testing.T) {
 }
 
 var _ = protocol.Protocol{}
+
+// TestC03_Concurrent: the DID of a create request is the hash of its suffix data also when many requests are parsed at
+// the same time, by one shared parser or by several (expected suffixes come from the harness' own hashing).
+func TestC03_Concurrent(t *testing.T) {
+	st := statsFor("C03")
+	check(t, "C03", 25, func(t *rapid.T) {
+		p := wideProtocol()
+		shared := newStack(p)
+		n := rapid.IntRange(2, 8).Draw(t, "goroutines")
+		rounds := rapid.IntRange(5, 30).Draw(t, "rounds")
+		type job struct {
+			raw    []byte
+			suffix string
+			parser *libStack
+		}
+		jobs := make([]job, n)
+		for i := range jobs {
+			rec, upd := genNoncedKey(t, p, "recovery"), genNoncedKey(t, p, "update")
+			if rec.Commitment(18) == upd.Commitment(18) {
+				upd = otherKey(t, rec)
+			}
+			patches, _ := genOpPatches(t, map[string]interface{}{}, true, st)
+			b := newCreate(18, rec, upd, patches, genC03Origin(t), "")
+			jobs[i] = job{b.bytes(), b.suffixFor(p.MultihashAlgorithms[0]), shared}
+			if rapid.Bool().Draw(t, "ownParser") {
+				jobs[i].parser = newStack(p)
+			}
+		}
+		errs := make(chan string, n)
+		var wg sync.WaitGroup
+		for i := range jobs {
+			wg.Add(1)
+			go func(j job) {
+				defer wg.Done()
+				for r := 0; r < rounds; r++ {
+					op, err := j.parser.Parser.Parse("did:sidetree", j.raw)
+					if err != nil {
+						errs <- fmt.Sprintf("valid create refused: %v", err)
+						return
+					}
+					if op.UniqueSuffix != j.suffix {
+						errs <- fmt.Sprintf("unique suffix %q is not the hash of the suffix data (%q)", op.UniqueSuffix, j.suffix)
+						return
+					}
+				}
+			}(jobs[i])
+		}
+		awaitWorkers(t, &wg, "C03 concurrent parsing of create requests")
+		close(errs)
+		for e := range errs {
+			t.Fatalf("C03 (with %d goroutines at the same time) %s", n, e)
+		}
+		st.Case(n >= 4, fmt.Sprint("concurrent|", n, rounds, jobs[0].suffix), "concurrent", fmt.Sprintf("goroutines-%d", n))
+	})
+}
